@@ -50,13 +50,18 @@ def gen_query(rnd, qi):
     if nested:
         getv = lambda k: ["func", "", "getvar", [KEY_SQL.get(k, ["str", k])]]
         for j in range(rnd.randint(1, 3)):
-            kind = rnd.choice(["incr", "copy", "plus", "case"])
+            kind = rnd.choice(["incr", "copy", "plus", "case", "asyncarg", "asyncarg"])
             pos = rnd.randint(0, len(sel))
             if kind == "incr":
                 it = ["item", ["func", "", "setvar", [["str", "cnt"], ["bin", "plus", getv("cnt"), num(rnd.choice([1, 2]))]]], "sv", "sv"]
             elif kind == "copy":
                 k1, k2 = rnd.choice(KEYS + ["cnt"]), rnd.choice(KEYS)
                 it = ["item", ["func", "", "setvar", [KEY_SQL.get(k2, ["str", k2]), getv(k1)]], "sv", "sv"]
+            elif kind == "asyncarg":
+                # a register read as ARGUMENT of a call run with the ASYNC / SPIN strategy: the arguments are evaluated when the
+                # item is reached (the call itself may complete later); VF_SLOW(tag, x) returns x
+                qual = "async"      # (a SPIN call contributes no column, so its argument is not observable in the rows)
+                it = ["item", ["func", qual, "vf_slow", [["str", "r"], getv(rnd.choice(["cnt", "k1", "k2"]))]], "n%d_%d" % (qi, j), "n%d_%d" % (qi, j)]
             elif kind == "plus":
                 it = ["item", ["bin", "mult", getv("cnt"), num(10)], "n%d_%d" % (qi, j), "n%d_%d" % (qi, j)]
             else:
@@ -64,6 +69,13 @@ def gen_query(rnd, qi):
                       "n%d_%d" % (qi, j), "n%d_%d" % (qi, j)]
             sel.insert(pos, it)
     sel.append(item(col("id")))
+    def for_model(x):
+        if isinstance(x, list):
+            if len(x) == 4 and x[0] == "func" and x[2] == "vf_slow":
+                return for_model(x[3][1])
+            return [for_model(y) for y in x]
+        return x
+    sel_model = for_model(sel)
     q = select(sel, table("t"))
     ops = []
     for r in rows:
@@ -94,7 +106,7 @@ def gen_query(rnd, qi):
         sql = sql + " UNION ALL " + sql
         ops = ops + ops
         passes = 2
-    return {"doc": {"t": rows}, "sql": sql, "items": items, "ops": ops, "form": form, "window": window, "passes": passes, "sel": sel, "nested": nested}
+    return {"doc": {"t": rows}, "sql": sql, "items": items, "ops": ops, "form": form, "window": window, "passes": passes, "sel": sel_model, "nested": nested}
 
 
 def explore(chk, rnd, tier):
